@@ -675,6 +675,7 @@ func runC17(tier string) int {
 	c17Context(r, tier)
 	c17ScaledContext(r, tier)
 	c17FamilyContext(r, tier)
+	c17ManyDataStatements(r, tier)
 
 	schedWG.Wait()
 	if schedErr != "" {
@@ -737,5 +738,95 @@ func runC17(tier string) int {
 		"'fresh process' baselines are computed by subprocesses that run exactly one compilation",
 		"context independence compares a statement's emitted section with every hoisted text / movement label replaced by the data it denotes (numbering and sharing are free, content is not)")
 	return r.Finish(r.Get("evaluations"), r.Get("nontrivial"),
-		"(1) schedules: for every corpus input (many-chunk scripts, label clashes, unknown-font errors against 2- and 3-font configs, all small 'general' programs, optimize on/off) every execution with <= d deviating map-iteration choice points (all n! orders for n <= 4, else reverse, rotations, adjacent transpositions), each run twice; (2) histories: every sequence of <= k compilations (k = 2 over all 576 actions, 3 over 72, thorough: 4 and 5 over 18) over 9 inputs x optimize x 2 font files x default font id {config default, -f} x default line length {config, -l} x 2 switch assignments x 2 command configs sharing the maps, each result compared with the same compilation as first action of a fresh process; (3) every top-level statement of a 16-statement family (scripts, texts, movements, marts, mapscripts, raw, const; texts and a movement whose content a poryswitch selects; statements named by the dictionary) among every ordered selection of <= m other statements at every position; states/transitions = executions; non-trivial = a deviating schedule, a history of length >= 2 or a context with a neighbour")
+		"(1) schedules: for every corpus input (many-chunk scripts, label clashes, unknown-font errors against 2- and 3-font configs, all small 'general' programs, optimize on/off) every execution with <= d deviating map-iteration choice points (all n! orders for n <= 4, else reverse, rotations, adjacent transpositions), each run twice; (2) histories: every sequence of <= k compilations (k = 2 over all 576 actions, 3 over 72, thorough: 4 and 5 over 18) over 9 inputs x optimize x 2 font files x default font id {config default, -f} x default line length {config, -l} x 2 switch assignments x 2 command configs sharing the maps, each result compared with the same compilation as first action of a fresh process; (3) every top-level statement of a 16-statement family (scripts, texts, movements, marts, mapscripts, raw, const; texts and a movement whose content a poryswitch selects; statements named by the dictionary) among every ordered selection of <= m other statements at every position; (4) files with N texts, N movements, N marts and N scripts for every N up to the bound in the coverage in 4 interleavings: every data block is the block of the statement compiled alone; states/transitions = executions; non-trivial = a deviating schedule, a history of length >= 2 or a context with a neighbour")
+}
+
+// c17ManyDataStatements: files with N texts, N movements, N marts and N small scripts (all different, some texts and
+// step lists shared with inline data of the scripts), interleaved, for N = 1..maxN in 4 interleavings: the block of
+// every data statement is the block it gets when compiled alone (a per-file table or counter that fills up, or state
+// that a statement of one kind leaves for the next of another kind, shows at some N).
+func c17ManyDataStatements(r *harness.Run, tier string) {
+	maxN := 120
+	if tier == "thorough" {
+		maxN = 400
+	}
+	stmt := func(kind, i int) (src, label string) {
+		switch kind {
+		case 0:
+			return fmt.Sprintf("text TXT_%d {\n\t\"text number %d\"\n\t\"second line %d\"\n}\n", i, i, i%7), fmt.Sprintf("TXT_%d", i)
+		case 1:
+			return fmt.Sprintf("movement MOV_%d {\n\tstep_a%d\n\tstep_b * %d\n}\n", i, i, i%5+1), fmt.Sprintf("MOV_%d", i)
+		case 2:
+			return fmt.Sprintf("mart MRT_%d {\n\tITEM_%d\n\tITEM_B%d\n}\n", i, i, i%3), fmt.Sprintf("MRT_%d", i)
+		default:
+			return fmt.Sprintf("script SCR_%d {\n\tmsgbox(\"text number %d\")\n\tapplymovement(%d, moves(step_a%d step_b))\n}\n", i, i, i, i), ""
+		}
+	}
+	alone := map[string]string{}
+	for i := 0; i < maxN; i++ {
+		for kind := 0; kind < 3; kind++ {
+			src, label := stmt(kind, i)
+			res := comp.Compile(src, comp.Opts{Optimize: true})
+			b, _ := blockAfter(res.Out, label)
+			alone[label] = strings.Join(b, "\n")
+		}
+	}
+	done := r.Parallel(uint64(maxN)*4, func(w int, idx uint64) {
+		n, order := int(idx/4)+1, int(idx%4)
+		var parts []string
+		var labels []string
+		add := func(kind, i int) {
+			src, label := stmt(kind, i)
+			parts = append(parts, src)
+			if label != "" {
+				labels = append(labels, label)
+			}
+		}
+		switch order {
+		case 0: // kind by kind
+			for kind := 0; kind < 4; kind++ {
+				for i := 0; i < n; i++ {
+					add(kind, i)
+				}
+			}
+		case 1: // round robin
+			for i := 0; i < n; i++ {
+				for kind := 0; kind < 4; kind++ {
+					add(kind, i)
+				}
+			}
+		case 2: // round robin, scripts first, indices descending
+			for i := n - 1; i >= 0; i-- {
+				for kind := 3; kind >= 0; kind-- {
+					add(kind, i)
+				}
+			}
+		default: // data statements only
+			for i := 0; i < n; i++ {
+				for kind := 0; kind < 3; kind++ {
+					add(kind, i)
+				}
+			}
+		}
+		src := strings.Join(parts, "\n")
+		res := comp.Compile(src, comp.Opts{Optimize: true})
+		r.Add("evaluations", 1)
+		r.Add("nontrivial", 1)
+		r.Add("many_statement_files", 1)
+		if res.Err != nil || res.Panic != "" {
+			r.Report(harness.Violation{Sig: "C17:many-statements:rejected", Summary: fmt.Sprintf("file with %d statements of each kind (order %d) rejected: %v %s", n, order, res.Err, firstLine(res.Panic)), Replay: map[string]interface{}{"source": src}})
+			return
+		}
+		for _, l := range labels {
+			b, ok := blockAfter(res.Out, l)
+			if !ok || strings.Join(b, "\n") != alone[l] {
+				r.Report(harness.Violation{Sig: "C17:many-statements:" + l[:3], Summary: fmt.Sprintf("file with %d statements of each kind (order %d): the block of %s is %q, compiled alone it is %q", n, order, l, strings.Join(b, "\n"), alone[l]), Replay: map[string]interface{}{"source": src, "statement": l, "alone": alone[l], "in_context": strings.Join(b, "\n")}})
+				return
+			}
+		}
+	})
+	if !done {
+		r.NotExhaustive("many-statement files not completed")
+	}
+	r.Set("many_statement_files_max_n", maxN)
 }
